@@ -1002,8 +1002,8 @@ Qed.
    <c1>--</c1> with the text "Force the operation <b>(default: 3)</b>": every tag well nested and registered, every label and
    text neutral; 17 columns are enough for the identity formatter (needed_width), 8 for the plain one.  At 18 columns the
    paragraph is wrapped at 17: "<u>aaaaaaaaaaaaaa" / "aaaaaaaaaaaaaaaa<" / "/u>" - the closing tag is cut, the style u stays
-   open; the option's text is wrapped at 5: "<b>(d" ... ")</b>" keeps both tags, but with a little less room "<b>" is cut and
-   "</b>" is not; here the opening tag of the text is cut ("... <" / "b>(de"), the closing one is found, the style b is not on
+   open; the option's text is wrapped at 11: "Force the" / "operation <" / "b>(default:" / "3)</b>" - the opening tag is cut
+   (the long word "<b>(default:" is broken where the line ends), the closing one is found, and the style b is not on
    the stack [u]: ValueError.  At 17 and 19 columns the page renders.  Observed alike on the Python code (BlockLayout with a
    Paragraph and a LabeledParagraph on a BufferedIO of width 18, PlainFormatter and AnsiFormatter over the DefaultStyleSet:
    ValueError "Incorrectly nested style tag found."; widths 17 and 19: no error). *)
@@ -1218,8 +1218,8 @@ Qed.
    for every state of the stack.  The command "c" of the application "a" with the single option --xx (an integer, default 3,
    value name "level", description "abcdef"): tag-free, all configuration hypotheses met; the page needs 10 columns.  The style u
    is open (an earlier write("<u>x") on the same IO).  At 17 columns the option's text "abcdef <b>(default: 3)</b>" is
-   wrapped at 6: "abcdef" / "<b>(de" ... - at 17 and 18 columns the cut falls so that "<b>" is torn and "</b>" is not, and
-   the closing tag does not find b on the stack [u]: ValueError.  With the empty stack, or at 16 and 19 columns, the page renders.
+   wrapped at 8: "abcdef <" / "b>(defau" / "lt:" / "3)</b>" - at 17 and 18 columns the cut falls so that "<b>" is torn and
+   "</b>" is not, and the closing tag does not find b on the stack [u]: ValueError.  With the empty stack, or at 16 and 19 columns, the page renders.
    Observed alike on the Python code (CommandHelp of such a command on a BufferedIO of width 17 / 18 after io.write("<u>x"),
    PlainFormatter and AnsiFormatter: ValueError "Incorrectly nested style tag found."; widths 14-16 and 19-21, or no earlier
    write: no error). *)
